@@ -18,6 +18,7 @@ import (
 	"fmt"
 	"os"
 	"strconv"
+	"strings"
 	"sync"
 	"sync/atomic"
 	"time"
@@ -71,9 +72,15 @@ func runParScenario(seed uint64, size int, t *Trace) error {
 		now := glow.CurrentTimeslot()
 		off := g.off()
 		// ---- build the burst
+		withRot := r.Chance(25)
 		var dgrams [][]byte
 		seenPrefix := map[string]bool{}
 		addD := func(d []byte) {
+			if withRot && len(d) >= 80 && binary.LittleEndian.Uint32(d[4:8]) >= off+4032 {
+				// beyond the window before the rotation, inside it afterwards: the only reports whose fate depends
+				// on which side of the rotation they fall WITHOUT leaving a trace in the log on one side
+				return
+			}
 			if len(d) >= 80 {
 				p := string(d[:80])
 				if seenPrefix[p] && r.Chance(50) {
@@ -154,7 +161,6 @@ func runParScenario(seed uint64, size int, t *Trace) error {
 		// effect at one point of the report log: every logged report of the week being archived precedes it
 		// (a later one would have been out of the window and left no trace), the others commute with it.
 		// No device is created or banned in such a burst (the archived week lists the devices of that instant).
-		withRot := r.Chance(25)
 		if withRot {
 			auths = nil
 		}
@@ -169,6 +175,27 @@ func runParScenario(seed uint64, size int, t *Trace) error {
 			}
 			as.GCAAuthorization = glow.Sign(as.SigningBytes(), signer)
 			servers = append(servers, as)
+		}
+		// migration orders, at most one per reporting device and burst (they commute with everything else in the
+		// burst; the sync queries of the burst read the table they write)
+		var migs []server.EquipmentMigration
+		for _, dv := range reps {
+			if !r.Chance(35) {
+				continue
+			}
+			ng := detKey(seed, 700+r.Intn(2))
+			em := server.EquipmentMigration{Equipment: dv.key.Pub, NewGCA: ng.Pub, NewShortID: uint32(r.Intn(100))}
+			for i := 0; i < r.Intn(3); i++ {
+				as := server.AuthorizedServer{PublicKey: detKey(seed, 800+i).Pub, Location: "127.0.0.1", HttpPort: 1, TcpPort: 2, UdpPort: 3, Banned: r.Chance(20)}
+				as.GCAAuthorization = glow.Sign(as.SigningBytes(), ng.Priv)
+				em.NewServers = append(em.NewServers, as)
+			}
+			signer := s.E.GCA.Priv
+			if r.Chance(15) {
+				signer = s.E.Temp.Priv
+			}
+			em.Signature = glow.Sign(em.SigningBytes(), signer)
+			migs = append(migs, em)
 		}
 		// ---- oracle rows for everything the model may check (before the burst: keys cannot change inside it)
 		snap := s.E.S.VerifSnapshot()
@@ -191,6 +218,14 @@ func runParScenario(seed uint64, size int, t *Trace) error {
 		}
 		for _, as := range servers {
 			s.oracle(snap.GCAKey, as.SigningBytes(), as.GCAAuthorization)
+		}
+		for _, em := range migs {
+			s.Keys[em.NewGCA] = true
+			s.oracle(snap.GCAKey, em.SigningBytes(), em.Signature)
+			for _, a := range em.NewServers {
+				a := a
+				s.oracle(em.NewGCA, a.SigningBytes(), a.GCAAuthorization)
+			}
 		}
 		repLen0 := fileLen(s.E.Dir + "/equipment-reports.dat")
 		authLen0 := fileLen(s.E.Dir + "/equipment-authorizations.dat")
@@ -226,6 +261,10 @@ func runParScenario(seed uint64, size int, t *Trace) error {
 		}
 		if withRot {
 			launch(func() { s.E.S.VerifMigrateNow() })
+		}
+		for _, em := range migs {
+			em := em
+			launch(func() { s.E.PostJSON("/api/v1/equipment-migrate", em) })
 		}
 		nq := 4 + r.Intn(8)
 		for i := 0; i < nq; i++ {
@@ -354,6 +393,18 @@ func runParScenario(seed uint64, size int, t *Trace) error {
 				emitS(as)
 			}
 		}
+		for _, em := range migs {
+			var srv []string
+			for _, a := range em.NewServers {
+				b := 0
+				if a.Banned {
+					b = 1
+				}
+				srv = append(srv, fmt.Sprintf("%s,%d,%s,%d,%d,%d,%s", hx(a.PublicKey[:]), b, hx([]byte(a.Location)), a.HttpPort, a.TcpPort, a.UdpPort, hx(a.GCAAuthorization[:])))
+			}
+			t.Line("srv.migrate eq=%s gca=%s id=%d slist=%s sig=%s => ?", hx(em.Equipment[:]), hx(em.NewGCA[:]), em.NewShortID, strings.Join(srv, ";"), hx(em.Signature[:]))
+		}
+		t.Stats["par:migrations"] += len(migs)
 		obs := "ok"
 		if readErrs > 0 {
 			obs = fmt.Sprintf("FAILED:%d of %d concurrent queries got no answer", readErrs, reads)
